@@ -160,6 +160,9 @@ def partitions(tier, seed):
             stream += cmds[-1][1] + [r for r in rsps if r[0] == "sess1"][0][2]
         parts.append(sp.M("harness.c10:lookahead", "C10", sp.stream_key(), "%s-stream/lookahead" % sp.cc_name(cc), stream, [],
                           budget=60, cfg={"cuts": list(range(0, len(stream)))}))
+    for key, cfg in ((sp.cmd_key(), None), (sp.rsp_key(), {"cc": ccs[0]}), (sp.stream_key(), None)):
+        for n in (0, 1):
+            parts.append(sp.S("harness.c10:sources", "C10", key, n, budget=20, cfg=cfg))
     for n in (1, 2, 3, 4, 5) if quick else (1, 2, 3, 4, 5, 6, 7):
         parts.append({"id": "C10/hex-lazy/len%d" % n, "prop": "harness.c10:hex_lazy", "cfg": {}, "sym": [["t", "bytes", n]],
                       "budget_s": 120 if quick else 400})
